@@ -127,7 +127,7 @@ Print Assumptions C04_survivor_failed_refuted_tries.
    - in the stale-mapping class of the known finding: the duplicate walk met
      an entry beyond the mapping (FBeyond) or ten remaps did not catch up
      (FTries), or
-   - at the model's 4 GiB offset bound (FRange);
+   - because the reservation would pass 4 GiB: errCorrupt of fix 633eed3 (FRange);
    in particular the cycle guards, writeEntryAt's bounds test, extend's
    length test and the two "corrupt limit" tests never fire. *)
 Theorem C04_failures_classified : forall bucket nlen H st0 sched, init_ok bucket nlen H st0 ->
